@@ -84,6 +84,10 @@ def walk(fb, name, found, n=3):
                 return machine.some(Tok("old-value", a0.tag)) if (len(a) > 1 and is_name(a[1]) and a0.tag in found) else machine.none()
             if callee_matches(tt, "Ref::map", "RefMut::map", "Ref::map_val") and len(a) > 1:
                 return mc.call_value(a[1], [a0])
+        if isinstance(a0, Tok) and a0.kind == "slot" and c in ("std::mem::replace", "core::mem::replace") and len(a) == 2:
+            # the slot's value exchanged for another one: a store into the slot
+            ev["stores"].append((a0.tag, a[1] is VALUE))
+            return Tok("old-value", a0.tag)
         end = c.rsplit("::", 1)[-1]
         ent = a0 if isinstance(a0, Tok) and a0.kind == "entry" else (
             a0.fields[0] if isinstance(a0, absint.Enum) and a0.fields and isinstance(a0.fields[0], Tok) and a0.fields[0].kind == "entry" else None)
